@@ -1857,6 +1857,9 @@ impl<'a, const C: usize, const R: usize, T: 'a + Copy + std::fmt::Debug> Layout<
                     self.rpt_action = Some(action);
                 } else {
                     self.rpt_action = None;
+                    // `v` can be the buffer itself: rpt-any repeating a key chorded with a one-shot that
+                    // is still active. Copy the key codes out before the buffer is rewritten.
+                    let repeated: Vec<crate::key_code::KeyCode, 64> = v.iter().copied().take(64).collect();
                     unsafe {
                         self.rpt_multikey_key_buffer.clear();
                         for kc in self
@@ -1866,7 +1869,7 @@ impl<'a, const C: usize, const R: usize, T: 'a + Copy + std::fmt::Debug> Layout<
                         {
                             self.rpt_multikey_key_buffer.push(kc);
                         }
-                        for &keycode in *v {
+                        for &keycode in repeated.iter() {
                             self.rpt_multikey_key_buffer.push(keycode);
                         }
                         self.rpt_action = Some(self.rpt_multikey_key_buffer.get_ref());
